@@ -343,6 +343,8 @@ def read_value(ns, tx, x):
                 raise TypeError("ndarray attribute of another dtype")
             return {"sh": [int(d) for d in x.shape], "it": [list(x[idx].tobytes()) for idx in np.ndindex(*x.shape)]}
         sh = [int(d) for d in x._shape]
+        if any(d < 0 for d in sh) or int(np.prod(sh, dtype=object)) > 4096:
+            raise OverflowError(f"implausible shape {sh[:4]}")      # read from corrupted bytes: reported as a raising accessor
         return {"sh": sh, "it": [read_value(ns, tx["it"], x[idx]) for idx in np.ndindex(*sh)]}
     if x is None:
         return {"null": True, "at": -1, "tid": -1}
